@@ -158,3 +158,33 @@ class Socket:
 
 def supports_socket_sendmsg(sock):
     return nondet_bool()
+
+
+class RawSocket:
+    """socket.socket(family, type, proto): creation may fail with OSError; every successfully created socket counts
+    as open (ghost.open_sockets) until close() is called on it."""
+
+    def __init__(self, family=-1, type=-1, proto=-1, fileno=None):
+        if nondet_bool():
+            raise OSError
+        self.closed = False
+        self.mine = True  # ghost: created by the code under verification (not by a concurrent task)
+        ghost.open_sockets = ghost.open_sockets + 1
+
+    def close(self):
+        if not self.closed:
+            self.closed = True
+            ghost.open_sockets = ghost.open_sockets - 1
+
+    def bind(self, address):
+        if nondet_bool():
+            raise OSError(nondet_int(), "bind failed")
+        return None
+
+    def setblocking(self, flag):
+        if nondet_bool():
+            raise OSError
+        return None
+
+    def fileno(self):
+        return nondet_int()
